@@ -211,7 +211,7 @@ Section Complete.
           pose proof (gs_ok_emax gs Hg) as Hemax.
           subst kec.
           pose proof (chia_op_agrees P dom (gs_ext gs) opc args (gs_emax gs M - cost)
-                        (gs_ok_ext gs Hg) ltac:(lia)
+                        (gs_ok_ext gs Hg) (fun _ => ltac:(lia))
                         (fun Hcc => Hw Hcc (gs_emax gs M - cost) ltac:(lia)) Hsz Hns) as Ha.
           rewrite E in Ha. cbn [agrees] in Ha. rewrite Ha; [reflexivity|].
           intros c0 v0 E0. apply Ok_inj in E0. injection E0 as <- <-. lia.
